@@ -52,6 +52,7 @@ impl<'a> UnaryIter<'a> {
             self.pos += WORD_LEN;
             let word_pos = self.pos / WORD_LEN;
             if self.bv.num_words() <= word_pos {
+                self.buf = 0;
                 return None;
             }
             buf = self.bv.words()[word_pos];
@@ -91,6 +92,7 @@ impl<'a> UnaryIter<'a> {
             self.pos += WORD_LEN;
             let word_pos = self.pos / WORD_LEN;
             if self.bv.num_words() <= word_pos {
+                self.buf = 0;
                 return None;
             }
             buf = !self.bv.words()[word_pos];
